@@ -203,3 +203,181 @@ func genPrivw(run *vlib.Run) {
 		}
 	}
 }
+
+// ---- CID-keyed fonts: one Private DICT per Font DICT --------------------------
+//
+//	!cidpriv <default0> <nominal0> <mode> <operand1> <operand2>
+//
+// Two Font DICTs.  FD 0 has the Private DICT (default0, nominal0); FD 1 has,
+// by mode: "own" = its own dict (i300, i400) behind FD 0's; "empty-own" = an
+// empty dict at its own offset; "empty-shared" = an empty dict (size 0) at the
+// OFFSET OF FD 0's dict, which is where a zero-byte dict written in sequence
+// lands; "prefix" = the first entry of FD 0's dict only (same offset, smaller
+// size).  Glyph 1 belongs to FD 0, glyph 2 to FD 1; each is
+// [operand] 100 200 rmoveto 10 hlineto endchar.
+
+func cidPrivFont(def0, nom0 []byte, mode string, w1, w2 *int) []byte {
+	int5 := func(v int) []byte { return []byte{29, byte(v >> 24), byte(v >> 16), byte(v >> 8), byte(v)} }
+	glyphProg := func(w *int) []byte {
+		var g []byte
+		if w != nil {
+			g = append(g, dictInt(*w)...)
+		}
+		g = append(g, dictInt(100)...)
+		g = append(g, dictInt(200)...)
+		g = append(g, 21)
+		g = append(g, dictInt(10)...)
+		return append(g, 6, 14)
+	}
+	g0, g1, g2 := []byte{14}, glyphProg(w1), glyphProg(w2)
+	var p0 []byte
+	firstLen := 0
+	if def0 != nil {
+		p0 = append(append(p0, def0...), 20)
+		firstLen = len(p0)
+	}
+	if nom0 != nil {
+		p0 = append(append(p0, nom0...), 21)
+		if firstLen == 0 {
+			firstLen = len(p0)
+		}
+	}
+	p1 := append(append(append([]byte{}, dictInt(300)...), 20), append(dictInt(400), 21)...)
+
+	b := []byte{1, 0, 4, 1}
+	b = append(b, 0, 1, 1, 1, 2, 'A')
+	const topLen = 7 + 6 + 7 + 7 + 6
+	strs := []byte{0, 2, 1, 1, 6, 14}
+	strs = append(strs, "AdobeIdentity"...)
+	charsetAt := len(b) + (2 + 1 + 2 + topLen) + len(strs) + 2
+	fdselectAt := charsetAt + 5
+	charStringsAt := fdselectAt + 1 + 3
+	csLen := 2 + 1 + 4 + len(g0) + len(g1) + len(g2)
+	fdArrayAt := charStringsAt + csLen
+	const fontDictLen = 11
+	fdArrayLen := 2 + 1 + 3 + 2*fontDictLen
+	priv0At := fdArrayAt + fdArrayLen
+	priv1At, priv1Len := priv0At+len(p0), len(p1)
+	tail := append(append([]byte{}, p0...), p1...)
+	switch mode {
+	case "own":
+	case "empty-own":
+		priv1Len = 0
+		tail = p0
+	case "empty-shared":
+		priv1At, priv1Len = priv0At, 0
+		tail = p0
+	case "prefix":
+		priv1At, priv1Len = priv0At, firstLen
+		tail = p0
+	}
+	top := append(append(append(dictInt(391), dictInt(392)...), dictInt(0)...), 12, 30)
+	top = append(append(top, int5(charsetAt)...), 15)
+	top = append(append(top, int5(fdselectAt)...), 12, 37)
+	top = append(append(top, int5(fdArrayAt)...), 12, 36)
+	top = append(append(top, int5(charStringsAt)...), 17)
+	b = append(b, 0, 1, 1, 1, byte(1+len(top)))
+	b = append(b, top...)
+	b = append(b, strs...)
+	b = append(b, 0, 0)
+	b = append(b, 2, 0, 1, 0, 1) // charset format 2: CIDs 1.. for glyphs 1, 2
+	b = append(b, 0, 0, 0, 1)    // FDSelect format 0: glyphs 0,1 -> FD 0, glyph 2 -> FD 1
+	b = append(b, 0, 3, 1, 1, byte(1+len(g0)), byte(1+len(g0)+len(g1)), byte(1+len(g0)+len(g1)+len(g2)))
+	b = append(append(append(b, g0...), g1...), g2...)
+	fd := func(size, at int) []byte { return append(append(int5(size), int5(at)...), 18) }
+	b = append(b, 0, 2, 1, 1, 1+fontDictLen, 1+2*fontDictLen)
+	b = append(b, fd(len(p0), priv0At)...)
+	b = append(b, fd(priv1Len, priv1At)...)
+	return append(b, tail...)
+}
+
+func cidprivCase(defA, nomA, mode, w1A, w2A string) (impl, fail, sig string, err error) {
+	def, defV, err := privOperand(defA)
+	if err != nil {
+		return
+	}
+	nom, nomV, err := privOperand(nomA)
+	if err != nil {
+		return
+	}
+	opnd := func(a string) (*int, error) {
+		if a == "none" {
+			return nil, nil
+		}
+		v, e := strconv.Atoi(a)
+		return &v, e
+	}
+	w1, err := opnd(w1A)
+	if err != nil {
+		return
+	}
+	w2, err := opnd(w2A)
+	if err != nil {
+		return
+	}
+	if (def == nil && nom == nil) && mode == "prefix" {
+		mode = "empty-shared"
+	}
+	data := cidPrivFont(def, nom, mode, w1, w2)
+	var f *cff.Font
+	var rerr error
+	func() {
+		defer func() {
+			if e := recover(); e != nil {
+				rerr = fmt.Errorf("panic: %v", e)
+				impl = "panic"
+			}
+		}()
+		f, rerr = cff.Read(bytes.NewReader(data))
+	}()
+	if impl == "panic" {
+		return impl, "cff.Read panics on a CID-keyed font assembled from the specification: " + rerr.Error(), "c05-privw-panic", nil
+	}
+	if rerr != nil || f == nil || len(f.Glyphs) != 3 {
+		return "err", fmt.Sprintf("cff.Read rejects a well-formed CID-keyed font (mode %s): %v", mode, rerr), "c05-privw-rejected", nil
+	}
+	// FD 1's widths by mode
+	def1, nom1 := 300.0, 400.0
+	switch mode {
+	case "empty-own", "empty-shared":
+		def1, nom1 = 0, 0
+	case "prefix":
+		if def != nil {
+			def1, nom1 = defV, 0
+		} else {
+			def1, nom1 = 0, nomV
+		}
+	}
+	want := func(w *int, d, n float64) float64 {
+		if w == nil {
+			return d
+		}
+		return n + float64(*w)
+	}
+	want1, want2 := want(w1, defV, nomV), want(w2, def1, nom1)
+	impl = fmt.Sprintf("(ok %v %v)", f.Glyphs[1].Width, f.Glyphs[2].Width)
+	if f.Glyphs[1].Width != want1 || f.Glyphs[2].Width != want2 {
+		return impl, fmt.Sprintf("advance widths of glyph 1 (FD 0) and glyph 2 (FD 1, Private DICT %s): %v, %v; each Font DICT's own defaultWidthX / nominalWidthX give %v, %v", mode, f.Glyphs[1].Width, f.Glyphs[2].Width, want1, want2), "c05-private-dict-width", nil
+	}
+	return impl, "", "", nil
+}
+
+func genCidPriv(run *vlib.Run) {
+	for _, d := range []string{"none", "i500", "r250.5"} {
+		for _, n := range []string{"none", "i600", "i40000"} {
+			for _, mode := range []string{"own", "empty-own", "empty-shared", "prefix"} {
+				for _, ws := range [][2]string{{"none", "none"}, {"50", "none"}, {"none", "10"}, {"50", "10"}} {
+					line := vlib.Line(vlib.Atom("!cidpriv"), vlib.Atom(d), vlib.Atom(n), vlib.Atom(mode), vlib.Atom(ws[0]), vlib.Atom(ws[1]))
+					impl, fail, sig, err := cidprivCase(d, n, mode, ws[0], ws[1])
+					if err != nil {
+						panic(err)
+					}
+					idx := run.Add(line, impl, true, "stream:cidpriv", "cidpriv:"+mode, "oracle-only")
+					if fail != "" {
+						report(run, idx, line, fail, sig)
+					}
+				}
+			}
+		}
+	}
+}
